@@ -1,5 +1,7 @@
 import QcelVerif.Model.Compare
 import QcelVerif.Model.CompareWide
+import QcelVerif.Model.CompareAst
+import QcelVerif.Gen.CompareSrc
 import QcelVerif.Lib.Proto
 /-! Line-protocol driver for the C19 model.
 
@@ -22,8 +24,33 @@ import QcelVerif.Lib.Proto
   text outside the token alphabet: Z:<hex of the ASCII bytes> (scalar), J:<hex> (key), path lists x:<hex>,<hex>,...
   an R line is answered by `compareRecursive`; when that is not `unmodelled` the wide model must give the same
   answer, otherwise the driver prints `inconsistent` (run-time check of the conservative-extension theorem)
-  further answers: raise:KeyError | raise:TypeError | raise:OverflowError | inconsistent -/
-open QcelVerif QcelVerif.Compare QcelVerif.Proto
+  further answers: raise:KeyError | raise:TypeError | raise:OverflowError | inconsistent
+
+  three-way (Model/CompareAst.lean + Gen/CompareSrc.lean, regenerated from testing.py on every run): every V / E line is also
+  evaluated through the SOURCE-DERIVED skeleton of compare_values / compare (under the reporting options plain, return_message
+  and a custom handler), every R / W line through the source-derived compare_recursive (translated top-level stages over the
+  translated isinstance chain); when one of them
+  does not say what the hand model says the answer is `src-differs;<hand model>;<source-derived>` (run-time check of
+  compareValuesSrc_eq_model / compareSrc_eq_model / compareRecursiveSrc_eq_model of Props/C19Src.lean) -/
+open QcelVerif QcelVerif.Compare QcelVerif.Proto QcelVerif.CompareAst QcelVerif.Gen.CompareSrc
+
+def showOut : Out → String
+  | .ret r => if r.passfail then "T" else "F"
+  | .raised => "raise"
+  | .unmodelled => "unmodelled"
+  | .illFormed => "ill-formed"
+
+def repVariants : List Reporting := [{}, { returnMessage := true }, { quiet := true, returnMessage := true }, { customHandler := true }]
+
+/-- hand model vs the translated helper under every reporting variant -/
+def threeWay (hand : Res) (src : Reporting → Out) : String :=
+  match repVariants.find? (fun rep => !(src rep).agrees hand) with
+  | none => (match hand with | .verdict true => "T" | .verdict false => "F" | .raised .valueError => "raise:ValueError" | .unmodelled => "unmodelled")
+  | some rep => "src-differs;" ++ (match hand with | .verdict true => "T" | .verdict false => "F" | .raised .valueError => "raise:ValueError" | .unmodelled => "unmodelled")
+      ++ ";" ++ showOut (src rep)
+
+def compareRecursiveSrcD (a r : Rat) (fg : Option (List String)) (ph : PhaseOpt) (e c : Tree) : Res :=
+  evalTop compareRecursiveTopSrc (evalRec compareRecursiveNodeSrc) a r fg ph e c
 
 def dropPrefix (s : String) (n : Nat) : String := String.ofList (s.toList.drop n)
 
@@ -192,12 +219,14 @@ def stepC19 (line : String) : String :=
         match parseRat? a, parseRat? r, parseBool? en, parseBool? ep, parseBool? pn with
         | some a, some r, some en, some ep, some pn =>
           if a ≤ 0 || r < 0 then "bad-op"      -- outside the model's scope (log10(atol) raises)
-          else showRes (compareValues ⟨a, r, en, ep, pn⟩ e c)
+          else threeWay (compareValues ⟨a, r, en, ep, pn⟩ e c)
+            (fun rep => evalFn compareValuesSrc handleReturnSrc rep ⟨a, r, en, ep, pn⟩ e c)
         | _, _, _, _, _ => "bad-op"
       | _, _, _ => "bad-op"
     else if trimStr op == "E" then
       match parseBool? (trimStr opts), parseWholeTree e, parseWholeTree c with
-      | some ep, some e, some c => showRes (compareExact ep e c)
+      | some ep, some e, some c =>
+        threeWay (compareExact ep e c) (fun rep => evalFn compareSrc handleReturnSrc rep { atol := 1, rtol := 0, equalPhase := ep } e c)
       | _, _, _ => "bad-op"
     else "bad-op"
   | [op, tol, ph, fg, e, c] =>
@@ -208,7 +237,10 @@ def stepC19 (line : String) : String :=
         | some a, some r =>
           if a ≤ 0 || r < 0 then "bad-op" else
             let r0 := compareRecursive a r fg ph e c
-            if r0 ≠ .unmodelled && compareRecursiveW a r fg ph e c ≠ r0 then "inconsistent" else showRes r0
+            if r0 ≠ .unmodelled && compareRecursiveW a r fg ph e c ≠ r0 then "inconsistent"
+            else if r0 ≠ .unmodelled && compareRecursiveSrcD a r fg ph e c ≠ r0 then
+              "src-differs;" ++ showRes r0 ++ ";" ++ showRes (compareRecursiveSrcD a r fg ph e c)
+            else showRes r0
         | _, _ => "bad-op"
       | _, _, _, _, _ => "bad-op"
     else if trimStr op == "W" then
@@ -216,7 +248,10 @@ def stepC19 (line : String) : String :=
       | [a, r], some ph, some fg, some e, some c =>
         match parseRat? a, parseRat? r with
         | some a, some r =>
-          if a ≤ 0 || r < 0 then "bad-op" else showRes (compareRecursiveW a r fg ph e c)
+          if a ≤ 0 || r < 0 then "bad-op" else
+            let r0 := compareRecursiveW a r fg ph e c
+            if compareRecursiveSrcD a r fg ph e c ≠ r0 then "src-differs;" ++ showRes r0 ++ ";" ++ showRes (compareRecursiveSrcD a r fg ph e c)
+            else showRes r0
         | _, _ => "bad-op"
       | _, _, _, _, _ => "bad-op"
     else if trimStr op == "P" then
